@@ -284,9 +284,13 @@ def check(model, rep, tier):
     if ok:
       k, v = [core.norm(e) for e in lp.target.elts]
       b = pat.match('%s in _E_' % k, ifs[0].test)
-      ok = b is not None and len(ifs[0].body) == 1 and len(ifs[0].orelse) == 1 and \
-          pat.match('_E_[%s].update(%s)' % (k, v), ifs[0].body[0], b) is not None and \
-          pat.match('_E_[%s] = set(%s)' % (k, v), ifs[0].orelse[0], b) is not None
+      present, absent = ifs[0].body, ifs[0].orelse
+      if b is None:
+        b = pat.match('%s not in _E_' % k, ifs[0].test)       # branches the other way
+        present, absent = ifs[0].orelse, ifs[0].body
+      ok = b is not None and len(present) == 1 and len(absent) == 1 and \
+          pat.match('_E_[%s].update(%s)' % (k, v), present[0], b) is not None and \
+          pat.match('_E_[%s] = set(%s)' % (k, v), absent[0], b) is not None
       if b:
         ex_name = b['_E_']
     facts = {'loop_body': [core.norm(s) for s in lp.body]}
